@@ -14,7 +14,7 @@
    step that FAILS, the names that step wrote are unspecified (the property text leaves the partial
    effects of a failed input open); [xsession] is None as soon as such a name is read, a name
    outside its function's layout is used, or the fuel runs out. *)
-From Aelys Require Import Base.Tactics Extracted.CallCacheConsts Model.Session Proofs.SessionProofs.
+From Aelys Require Import Base.Tactics Extracted.CallCacheConsts Extracted.ReplShape Model.Session Proofs.SessionProofs.
 Local Open Scope N_scope.
 
 (* every input and host call of every specified session prints exactly what the by-name semantics
